@@ -30,11 +30,35 @@ sys.exit(0)
 '''
 
 
+STR_REPLAY = r'''
+# Replay for C30 (C side, str argument): typeof() of a compiled FFI on the given str must return or raise
+# ffi.error / TypeError / ValueError; the call runs in a child process so that a crash is observed.
+import sys, json, subprocess
+case = json.loads(%r)
+code = ("import sys, _cffi_backend\n"
+        "ffi = _cffi_backend.FFI()\n"
+        "text = ''.join(map(chr, %%r))\n"
+        "try:\n"
+        "    ffi.typeof(text)\n"
+        "except (ffi.error, TypeError, ValueError):\n"
+        "    pass\n"
+        "except Exception as e:\n"
+        "    print('OTHER', type(e).__name__); sys.exit(7)\n"
+        "sys.exit(0)\n") %% (case['code_points'],)
+r = subprocess.run([sys.executable, '-c', code], stdout=subprocess.PIPE, stderr=subprocess.STDOUT)
+if r.returncode < 0 or r.returncode >= 128:
+    print('VIOLATED: typeof(%%r) crashed the process (status %%d)' %% (''.join(map(chr, case['code_points'])), r.returncode)); sys.exit(1)
+if r.returncode == 7:
+    print('VIOLATED: typeof(%%r) raised %%s' %% (''.join(map(chr, case['code_points'])), r.stdout.decode().strip())); sys.exit(1)
+sys.exit(0)
+'''
+
+
 def cases(chk):
     quick = chk.tier == 'quick'
     P = (chk.prop, chk.tier)
     N = 4 if quick else 5
-    out = []
+    out = [P + ('cstr', k) for k in range(0, 3 if quick else 4)]
     for n in range(0, N + 1):
         for osz in ((1, 4) if quick else (1, 2, 8)):
             if n >= 3:
@@ -57,7 +81,97 @@ def first_class(c, cls):
     return z3.Not(z3.Or(alpha, digit, space, punct))
 
 
+def str_worker(args):
+    """_ffi_type (ffi.typeof / new / cast ... on a compiled FFI) with a str object of k symbolic code points:
+    PyUnicode_AsUTF8 follows its contract (NULL + UnicodeEncodeError for a lone surrogate)."""
+    prop, tier, k = args
+    chk = hutil.sub_check(prop, tier)
+    mod = irgen.backend()
+    label = '_ffi_type:str-of-%d-code-points' % k
+    FF = mod.struct_layout(('named', 'struct.FFIObject_s'))
+    tb_off = FF[0][6]
+    bl = mod.struct_layout(('named', 'struct.builder_c_t'))
+    ex = llsym.Executor(mod, pystubs.stubs(), loop_bound=64, max_depth=30)
+    findings = []
+
+    def replay(case):
+        path = chk.write_replay('str', STR_REPLAY % json.dumps({'code_points': [case['cp%d' % i] for i in range(k)]}))
+        rc, out = common.run_replay(path, timeout=120)
+        return common.replay_verdict(rc, out), path
+
+    def h(ex):
+        py = pystubs.PyEnv(ex)
+        mem = ex.mem
+        obj = mem.alloc(64, 'exc:FFIError', 'pyobj', fill=0)
+        mem.store(obj.base, 1 << 32, 8)
+        mem.store(ex.gaddr('FFIError'), obj.base, 8)
+        cps = [z3.BitVec('cp%d' % i, 16) for i in range(k)]
+        for c in cps:
+            ex.assume(c != 0)
+        text = py.new_unicode(cps, 2)
+        ffi = py.new_obj('ffi', 'FFI_Type', FF[1] + 16)
+        mem.store(ffi + tb_off + bl[0][1], py.new_opaque('dict', 'PyDict_Type', items=[]), 8)
+        inputs = dict(('cp%d' % i, c) for i, c in enumerate(cps))
+
+        def as_utf8(e, s_):
+            out = []
+            for c in cps:
+                if e.decide(z3.And(z3.UGE(c, 0xD800), z3.ULE(c, 0xDFFF))):
+                    py.exc = 'PyExc_UnicodeEncodeError'
+                    return 0
+                c32 = z3.ZeroExt(16, c)
+                if e.decide(z3.ULT(c, 0x80)):
+                    out.append(z3.Extract(7, 0, c32))
+                elif e.decide(z3.ULT(c, 0x800)):
+                    out += [z3.Extract(7, 0, 0xC0 | z3.LShR(c32, 6)), z3.Extract(7, 0, 0x80 | (c32 & 0x3F))]
+                else:
+                    out += [z3.Extract(7, 0, 0xE0 | z3.LShR(c32, 12)), z3.Extract(7, 0, 0x80 | (z3.LShR(c32, 6) & 0x3F)),
+                            z3.Extract(7, 0, 0x80 | (c32 & 0x3F))]
+            r = e.mem.alloc(len(out) + 1, 'utf8 text', 'input', fill=0)
+            for i, b in enumerate(out):
+                e.mem.store(r.base + i, b, 1)
+            return r.base
+
+        def setdefault(e, d, key, val):
+            return pystubs.PyDict_GetItem(e, d, key) or (pystubs.PyDict_SetItem(e, d, key, val), simp(val))[1]
+        errno_cell = mem.alloc(4, 'errno', 'heap', fill=0)
+        ex.stubs.update({'PyUnicode_AsUTF8': as_utf8, 'PyDict_SetDefault': setdefault,
+                         'PyMem_Malloc': lambda e, n_: e.mem.alloc(e.concretize(n_, 64, 64, 'size'), 'PyMem_Malloc', 'heap').base,
+                         'PyMem_Free': lambda e, p_: None, '__errno_location': lambda e: errno_cell.base,
+                         'realize_c_type_or_func': lambda e, b_, ops, idx: pystubs.new_ctype(e, pystubs.CffiLayout(mod), 4, 0)})
+        r = simp(ex.call('_ffi_type', [ffi, text, 1]))
+        if is_c(r) and r == 0:
+            hutil.witness(chk, ex, label + ':error:' + str(py.exc))
+            hutil.discharge(chk, ex, label + ':error-is-ffi.error-TypeError-or-ValueError',
+                            py.exc in ('FFIError', 'PyExc_TypeError', 'PyExc_ValueError', 'PyExc_UnicodeEncodeError'), inputs, replay=replay)
+        else:
+            hutil.witness(chk, ex, label + ':ctype')
+            hutil.discharge(chk, ex, label + ':no-exception-with-a-result', py.exc is None, inputs, replay=replay)
+
+    def on_oob(ex2, what_, model):
+        m = model or ex2.model()
+        cps = [z3.BitVec('cp%d' % i, 16) for i in range(k)]
+        data = [hutil.mval(m, c) for c in cps] if m is not None else []
+        key = tuple(0xD800 <= c <= 0xDFFF for c in data)
+        if key in findings:
+            return
+        findings.append(key)
+        try:
+            ok, path = replay(dict(('cp%d' % i, c) for i, c in enumerate(data)))
+        except Exception as e:
+            chk.inconc('%s: replay machinery failed: %s' % (label, e))
+            return
+        chk.report_failure('%s: stray memory access for str code points %r: %s' % (label, data, what_), {}, path, ok)
+    ex.on_oob = on_oob
+    res = ex.explore(h, max_paths=20000, time_limit=1500)
+    hutil.finish_explore(chk, ex, res, label)
+    chk.functions = irgen.func_info(mod, sorted(ex.called))
+    return hutil.export(chk)
+
+
 def worker(args):
+    if len(args) == 3:
+        return str_worker(args)
     prop, tier, n, osz, cls = args
     chk = hutil.sub_check(prop, tier)
     mod = irgen.backend()
